@@ -1,5 +1,6 @@
-use vkit::Check;
+mod c24;
+mod idx;
+use vkit::{Check, Level};
 fn main() {
-    let checks: &[Check] = &[];
-    vkit::main(checks);
+    vkit::main(&[Check { id: "C24", level: Level::Exploration, run: c24::run }]);
 }
